@@ -12,37 +12,55 @@ open BeyondVerif.Iter
 
 /-- [num-iter-fwd-beyond-stop, 1267f6c] stop 90 s after the epoch, integration step 60 s, no `step`: 0, 60 — the date 120 s,
 beyond stop, is no longer yielded -/
-theorem numerical_nothing_beyond_stop : numIter 20 8 0 60 { stop := some (.at 90) } false = (true, ⟨[0, 60], .done⟩) := by decide
+theorem numerical_nothing_beyond_stop : numIter 20 8 0 60 (fun _ => 60) true { stop := some (.at 90) } false = (true, ⟨[0, 60], .done⟩) := by decide
 
 /-- [num-iter-fwd-beyond-stop, 1267f6c] the same with an explicit step: stop 450, step 30 → the last date is 450 (was 480) -/
 theorem numerical_nothing_beyond_stop_step :
-    (numIter 40 8 0 60 { stop := some (.at 450), step := some (some 30) } false).2.dates.getLast? = some 450 := by decide
+    (numIter 40 8 0 60 (fun _ => 60) true { stop := some (.at 450), step := some (some 30) } false).2.dates.getLast? = some 450 := by decide
 
 /-- [num-iter-fwd-step-short-raises-value-error, d22f06a] a span of 200 s (4 integration points < order 8) with an explicit step
 is resampled (was ValueError) -/
 theorem numerical_short_span_resampled :
-    numIter 20 8 0 60 { stop := some (.at 200), step := some (some 30) } false = (true, ⟨[0, 30, 60, 90, 120, 150, 180], .done⟩) := by decide
+    numIter 20 8 0 60 (fun _ => 60) true { stop := some (.at 200), step := some (some 30) } false = (true, ⟨[0, 30, 60, 90, 120, 150, 180], .done⟩) := by decide
 
 /-- [num-iter-fwd-step-short-raises-value-error, d22f06a] … and with a listener and no step the integration grid is padded but
 only the dates up to stop are yielded -/
-theorem numerical_short_span_listening : numIter 20 8 0 60 { stop := some (.at 200) } true = (true, ⟨[0, 60, 120, 180], .done⟩) := by decide
+theorem numerical_short_span_listening : numIter 20 8 0 60 (fun _ => 60) true { stop := some (.at 200) } true = (true, ⟨[0, 60, 120, 180], .done⟩) := by decide
 
 /-- [num-iter-bwd-raises-value-error, d22f06a] backward ranges are iterated (were ValueError): step given positive, … -/
-theorem numerical_backward : numIter 20 8 0 60 { stop := some (.delta (-600)), step := some (some 60) } false
+theorem numerical_backward : numIter 20 8 0 60 (fun _ => 60) true { stop := some (.delta (-600)), step := some (some 60) } false
     = (true, ⟨[0, -60, -120, -180, -240, -300, -360, -420, -480, -540, -600], .done⟩) := by decide
 /-- … no step (stop off the integration grid: nothing beyond it), … -/
-theorem numerical_backward_nostep : numIter 20 8 0 60 { stop := some (.delta (-200)) } false = (true, ⟨[0, -60, -120, -180], .done⟩) := by decide
+theorem numerical_backward_nostep : numIter 20 8 0 60 (fun _ => 60) true { stop := some (.delta (-200)) } false = (true, ⟨[0, -60, -120, -180], .done⟩) := by decide
 /-- … negative step not dividing the span, start after the epoch -/
 theorem numerical_backward_negstep :
-    numIter 20 8 0 60 { start := some (some 100), stop := some (.at (-100)), step := some (some (-45)) } false
+    numIter 20 8 0 60 (fun _ => 60) true { start := some (some 100), stop := some (.at (-100)), step := some (some (-45)) } false
       = (true, ⟨[100, 55, 10, -35, -80], .done⟩) := by decide
 
 /-- [num-iter-dates-list-raises-attribute-error, c9fd5d8] an explicit list of dates is accepted by the numerical propagator
 (was AttributeError) and yielded as given; the empty list yields nothing -/
-theorem numerical_dates_list : numIter 20 8 0 60 { dates := some (.list [0, 60]) } false = (true, ⟨[0, 60], .done⟩) := by decide
-theorem numerical_dates_list_unordered : numIter 20 8 0 60 { dates := some (.list [200, -45, 200, 7]) } false
+theorem numerical_dates_list : numIter 20 8 0 60 (fun _ => 60) true { dates := some (.list [0, 60]) } false = (true, ⟨[0, 60], .done⟩) := by decide
+theorem numerical_dates_list_unordered : numIter 20 8 0 60 (fun _ => 60) true { dates := some (.list [200, -45, 200, 7]) } false
     = (true, ⟨[200, -45, 200, 7], .done⟩) := by decide
-theorem numerical_dates_list_empty : numIter 20 8 0 60 { dates := some (.list []) } false = (false, ⟨[], .done⟩) := by decide
+theorem numerical_dates_list_empty : numIter 20 8 0 60 (fun _ => 60) true { dates := some (.list []) } false = (false, ⟨[], .done⟩) := by decide
+
+/-- COUNTER-witness [num-iter-fwd-adaptive-default-step-wrong-dates, OPEN finding C08-num-adaptive-default-step]: with an adaptive
+method whose step-size control takes steps of 33 s (nominal step 60 s), the DEFAULT step (absent, `None` or `propagator.step`
+itself) yields the raw integration points up to stop instead of 0, 60, 120, 180; backward, and with any explicit step — of the
+same value too — the contract grid is yielded -/
+theorem numerical_default_step_raw_points :
+    numIter 20 8 0 60 (fun _ => 33) true { stop := some (.at 200) } false = (true, ⟨[0, 33, 66, 99, 132, 165, 198], .done⟩) ∧
+    numIter 20 8 0 60 (fun _ => 33) true { stop := some (.at 200), step := some (some 60), stepSame := true } false
+      = (true, ⟨[0, 33, 66, 99, 132, 165, 198], .done⟩) ∧
+    numIter 20 8 0 60 (fun _ => 33) true { stop := some (.at 200), step := some (some 60) } false = (true, ⟨[0, 60, 120, 180], .done⟩) ∧
+    numIter 20 8 0 60 (fun _ => 33) true { stop := some (.delta (-200)) } false = (true, ⟨[0, -60, -120, -180], .done⟩) := by
+  decide
+
+/-- the seeded change C08-m5 (`step == self.step`, `ident = false`) extends this to an explicit step of the same value -/
+theorem numerical_value_test_raw_points :
+    numIter 20 8 0 60 (fun _ => 33) false { stop := some (.at 200), step := some (some 60) } false
+      = (true, ⟨[0, 33, 66, 99, 132, 165, 198], .done⟩) := by
+  decide
 
 def pts : List Int := [0, 60, 120, 180, 240, 300, 360, 420, 480, 540, 600]
 
